@@ -230,9 +230,10 @@ def assignment_from_model(m: Any, names: List[str]) -> Dict[str, Any]:
     return env
 
 
-def nice_query(ctx: Ctx, conds: List[Any], syms: List[Any]):
+def nice_query(ctx: Ctx, conds: List[Any], syms: List[Any], axioms: Optional[List[Any]] = None):
     """Decide the query; when it is sat, prefer a counterexample with small integer / dyadic values."""
-    r, m = ctx.query(*conds)
+    r, m = ctx.query_lazy(conds, axioms or [])
+    conds = list(conds) + list(axioms or [])
     if r != "sat" or not syms:
         return r, m
     ints = [z3.And(z3.IsInt(s), s >= -12, s <= 12) for s in syms]
